@@ -89,12 +89,19 @@ def getSnapshotValue (log : List Entry) (a : Nat) (snap : Nat) : Option Bytes :=
 
 def findNode (m : VLog) (k : Bytes) : Option Node := m.nodes.find? (fun n => n.key = k)
 
-def freshNode (k : Bytes) : Node := { key := k, vptr := 0, flags := 0, deleted := false }
+/-- a node that has just been allocated by traverse(key, insert = true) and is not yet counted: modelled as "marked
+    deleted" (RBT counts it in allocNode, ART in setValue; either way the write that allocates it counts it once) -/
+def freshNode (k : Bytes) : Node := { key := k, vptr := 0, flags := 0, deleted := true }
+
+/-- traverse(key, insert = true) -/
+def ensureNode (nodes : List Node) (k : Bytes) : List Node :=
+  if nodes.any (fun n => n.key = k) then nodes else nodes ++ [freshNode k]
+
+def modifyNode (nodes : List Node) (k : Bytes) (f : Node → Node) : List Node :=
+  nodes.map (fun n => if n.key = k then f n else n)
 
 /-- traverse(key, insert = true) followed by an update of the node -/
-def upsertNode (nodes : List Node) (k : Bytes) (f : Node → Node) : List Node :=
-  if nodes.any (fun n => n.key = k) then nodes.map (fun n => if n.key = k then f n else n)
-  else nodes ++ [f (freshNode k)]
+def upsertNode (nodes : List Node) (k : Bytes) (f : Node → Node) : List Node := modifyNode (ensureNode nodes k) k f
 
 /-- ART.Set + setValue + trySwapValue (RBT.Set + setValue).  `v = none`: flags only.
     Counting a key: RBT counts in allocNode and when `flags == 0 && vptr.IsNull() && isDeleted()`; ART counts in setValue when
@@ -105,9 +112,8 @@ def write (m : VLog) (k : Bytes) (v : Option Bytes) (ops : List Nat) : VLog × O
   else if (match v with | some x => decide (k.length + x.length > m.entryLimit) | none => false) then (m, .err .entryTooLarge)
   else
     let dirty0 := m.dirty || m.stages.isEmpty
-    let (isNew, n) := match m.findNode k with
-      | some n => (n.deleted, n)
-      | none => (true, freshNode k)
+    let n := (m.findNode k).getD (freshNode k)
+    let isNew := n.deleted
     let len1 := if isNew then m.len + 1 else m.len
     let size1 := if isNew then m.size + (k.length : Int) else m.size
     let flags' := match v with
